@@ -52,7 +52,7 @@ theorem inv_cStep_idle (cfg : Cfg) (hf : Fixed cfg) (s : St) (h : Inv cfg s) (he
     cases op
     case init =>
       simp [appStep, St.app, St.setApp, beginOp, St.emit, guarded] at *
-      split <;>
+      cases inited <;>
       · simp [St.ret, St.setPc, St.setApp, St.app, St.emit]
         constructor <;> simp_all [Pdone, AppId.tid]
     case open_ =>
@@ -98,15 +98,16 @@ theorem inv_cStep_idle (cfg : Cfg) (hf : Fixed cfg) (s : St) (h : Inv cfg s) (he
         constructor <;> simp_all [Pdone, AppId.tid]
     case start =>
       simp [appStep, St.app, St.setApp, beginOp, St.emit, guarded] at *
-      split
-      · simp [St.ret, St.setPc, St.setApp, St.app, St.emit]
+      cases active
+      case true =>
+        simp [St.ret, St.setPc, St.setApp, St.app, St.emit]
         constructor <;> simp_all [Pdone, AppId.tid]
-      · rename_i hna
+      case false =>
         have hl : lock = .null := LockPtr.null_of_not_live h_nd (by
           intro hl
-          exact hna (h_act.mpr hl))
+          exact absurd (h_act.mpr hl) (by simp))
         obtain ⟨n1, n2, n3, n4, n5, n6⟩ := hnull hl
-        subst hl n1 n2 n3 n4 n5 n6
+        subst hl n1 n2 n3 n4 n5
         simp [St.ret, St.setPc, St.setApp, St.app, St.emit]
         constructor <;> simp_all [Pdone, AppId.tid]
     case startfail =>
